@@ -14,6 +14,7 @@ use crate::with_weak;
 use crate::{map_weak, with_cc};
 
 pub struct RunResult {
+    pub fault_counters: [u32; FaultKind::COUNT],
     pub violation: Option<Violation>,
     pub hash: u64,
     pub stats: Stats,
@@ -565,6 +566,7 @@ pub fn run_program(prog: &Program, check_prop: &'static str, verbose: bool) -> R
     let _ = rust_cc::verif::take_probes();
     alloc::set_tag(0);
     world.apply_knobs(&prog.knobs);
+    world.m.borrow_mut().prog_ops = prog.ops.len() as u32;
     world.stats.borrow_mut().runs = 1;
     for op in &prog.ops {
         if world.dead.get() {
@@ -584,6 +586,7 @@ pub fn run_program(prog: &Program, check_prop: &'static str, verbose: bool) -> R
         st.probes = probes.to_vec();
     }
     let res = RunResult {
+        fault_counters: world.m.borrow().fault_counters,
         violation: world.violation.borrow().clone(),
         hash: world.hash.get(),
         stats: world.stats.borrow().clone(),
